@@ -2221,29 +2221,37 @@ func (e *CoreExtension) functionParent(args ...interface{}) (interface{}, error)
 		LogDebug("Blocks in context: %v", getMapKeys(ctx.blocks))
 		LogDebug("Parent blocks in context: %v", getMapKeys(ctx.parentBlocks))
 
-		// Check for parent content in the parentBlocks map
-		parentContent, ok := ctx.parentBlocks[blockName]
-		if !ok || len(parentContent) == 0 {
+		// The definition to render is the one after the definition being rendered now
+		// in the chain of definitions of this block (most-derived first)
+		chain := ctx.parentBlocks[blockName]
+		level := ctx.blockLevel + 1
+		if level <= 0 || level >= len(chain) {
 			return "", fmt.Errorf("no parent block content found for block '%s'", blockName)
 		}
+		parentBlock, ok := chain[level].(*BlockNode)
+		if !ok {
+			return "", fmt.Errorf("no parent block content found for block '%s'", blockName)
+		}
+		parentContent := parentBlock.body
 
-		// For the simplest possible solution, render the parent content directly
-		// This is the most direct way to avoid recursion issues
 		var result bytes.Buffer
 
-		// Create a clean context without parent() function to prevent recursion
+		// Render in a context of its own, with the same variables, blocks and chain, that
+		// knows which level of the chain it is rendering: a parent() call inside the
+		// parent content continues with the level after it
 		cleanCtx := NewRenderContext(ctx.env, ctx.context, ctx.engine)
 		cleanCtx.sandboxed = ctx.sandboxed // parent() inside a sandbox stays sandboxed
 		cleanCtx.lastLoadedTemplate = ctx.lastLoadedTemplate
 		defer cleanCtx.Release()
 
-		// Copy all blocks and variables
 		for name, content := range ctx.blocks {
 			cleanCtx.blocks[name] = content
 		}
-
-		// The key here is to NOT set currentBlock - this breaks the recursion chain
-		cleanCtx.currentBlock = nil
+		for name, defs := range ctx.parentBlocks {
+			cleanCtx.parentBlocks[name] = defs
+		}
+		cleanCtx.currentBlock = ctx.currentBlock
+		cleanCtx.blockLevel = level
 
 		// Render each node with the clean context
 		for _, node := range parentContent {
